@@ -41,6 +41,8 @@ mod api;
 mod errno;
 mod path;
 mod sys;
+#[cfg(aranya_verif)]
+pub mod verif;
 
 pub use api::*;
 pub use errno::Errno;
